@@ -12,7 +12,7 @@ CHECKS = {
          "Every leaf of the choice trees S-ports, S-sel-ip, S-multi, S-rules (thorough: + S-inter and all <=2-deviation variants of rich seeds) is executed on the real ConnlistFromResourceInfos and compared, for every workload pair and every cell of the exact port and IPv4 partitions, with a pointwise reference of the Kubernetes semantics. Exhaustive within the stated small-scope alphabets, not a sample.",
          "Small-scope bound (<=3 workloads, <=2 policies, alphabets of DESIGN §2.3). The reference model is the trusted base; C14 cross-checks it with oracle-free relations.", "§3 C01"),
  "C02": (EXPL, "bounded-exhaustive enumeration of ANP/NetworkPolicy/BANP stacks incl. every document order of each stack; exact cell comparison with a pointwise reference of the precedence sentence",
-         "All leaves of S-single, S-stack (all 3! document orders), S-dir, S-many (5..21 ANPs in 8 document orders) are run through the real list and compared exactly with the reference; thorough adds all <=2-deviation variants of two rich seeds.",
+         "All leaves of S-single, S-stack (all 3! document orders), S-dir, S-many (5..21 ANPs in 8 document orders), S-multipeer (rules with two or three peers, in ANPs and the BANP) and S-pieces (a full set assembled from per-protocol pieces of several policies) are run through the real list and compared exactly with the reference; thorough adds all <=2-deviation variants of two rich seeds.",
          "Small-scope bound (<=3 ANPs except S-many, priorities from a fixed set); reference model trusted.", "§3 C02"),
  "C03": (EXPL, "bounded-exhaustive enumeration of pod worlds; every eval verdict on the exact port/IP cell partition compared with the list relation of the same documents and with the reference",
          "The engine is populated exactly as `k8snetpolicy eval` does (InsertObject in document order); every ordered pod pair, every IP cell in both directions, 3 protocols x all port-cell boundary points are queried and compared with list; a designated scope sweeps all 3x65535 points in thorough tier; the built CLI binary is spawned on a sub-scope.",
@@ -21,7 +21,7 @@ CHECKS = {
          "For every ordered pair (A,B) of the family the diff entries are checked point by point against the two list reports (exactly-one covering entry, type, both connection values, new/lost flags), plus diff(A,A) and swap symmetry.",
          "Family of worlds is bounded (topologies x ipBlock partitions x ports); list itself is checked by C01/C05.", "§3 C04"),
  "C05": (EXPL, "invariant checked on every result of bounded-exhaustive world scopes (own scopes force full-set spellings and extremal ipBlocks)",
-         "wm.WellFormed is evaluated on every list result of S-full, S-full-anp, S-ipx, S-ipmany and of the C01/C02 world scopes (NetworkPolicy worlds with and without exposure); the same invariant is asserted inside the other list-based checks on every result they produce.",
+         "wm.WellFormed is evaluated on every list result of S-full, S-full-anp, S-ipx, S-ipmany, S-duplicated-workload, S-owner-pods-with-different-ports, S-focus-on-shared-names (focused reports) and of the C01/C02 world scopes (NetworkPolicy worlds with and without exposure); the same invariant is asserted inside the other list-based checks on every result they produce.",
          "Invariant read off the API objects; alphabets bounded as in DESIGN §2.3.", "§3 C05"),
  "C06": (EXPL, "bounded-exhaustive worlds x exhaustive enumeration of the finite quotient of hypothetical pods (labels x namespaces x named-port declarations)",
          "For every world of the exposure scopes: base relation with/without the flag compared exactly; protected flags compared with the reference; every reported exposure entry is checked for realizability against every class of hypothetical pods satisfying its selectors (exact quotient argument in DESIGN §3 C06).",
@@ -36,7 +36,7 @@ CHECKS = {
          "Every output of every format is parsed back by independent parsers and must equal the relation built from the API objects (and therefore every other format); the same for exposure sections and for the diff formats.",
          "Parsers are the trusted base; dot exposure naming normalised as documented.", "§3 C09"),
  "C10": (EXPL, "full product of Service/Ingress/Route/workload/policy shapes against an independent reference of the routing + policy rule",
-         "Every world of the product is analysed by the real list; presence and connection of each {ingress-controller} line and the blocked-backend warnings are compared with the reference.",
+         "Every world of the product is analysed by the real list; presence and connection of each {ingress-controller} line and the blocked-backend warnings are compared with the reference (the source is an unlabeled pod of a namespace without labels: admin policies whose subject covers it cut its egress).",
          "Route designation rule left open by the statement: Route scopes only contain services where all readings agree.", "§3 C10"),
  "C11": (MC, "explicit-state breadth-first search over the real ConnectionSet methods with representation-level state hashing; abstract bitset model as oracle on every transition",
          "States are real ConnectionSet values reached by generator steps and Union/Intersection/Subtract with every previously reached state as operand; after every transition denotation, non-modification, non-aliasing, canonical form and all predicates are compared with a bitset model over protocol x port cells.",
@@ -51,10 +51,10 @@ CHECKS = {
          "For every world and every edit of the listed kinds the two list results (plain, and base connectivity of list --exposure) are compared on the common refinement (subset / superset / equality / locality).",
          "Backstop against a misreading shared by the reference and the tool; classification of edits uses only selector matching.", "§3 C14"),
  "C15": (MC, "explicit-state BFS over operation histories of the real PolicyEngine with canonical private-state hashing (overlay dump); invariant = agreement with a fresh engine and the reference in every state",
-         "From the empty engine and pre-populated seeds, every operation of the alphabet (inserts, updates, deletes incl. absent objects and equal copies, queries) is applied in every reached state; a state is the pair (full private-state dump of the engine, model of the current objects); in every state every query must equal a fresh engine on the current objects and the reference.",
+         "From the empty engine and pre-populated seeds, every operation of the alphabet (inserts, updates, deletes incl. absent objects and equal copies, queries) is applied in every reached state; a state is the pair (full private-state dump of the engine, model of the current objects); in every state every query must equal a fresh engine on the current objects and the reference; an operation the engine refuses because of its history (an absent object refused although a fresh engine accepts it, a failing DeleteObject) is a violation of the transition itself. The last seed is searched over a second, smaller alphabet (owner-less pods, two policies of one namespace) to depth 8.",
          "Merging is sound because the dump is the whole state the methods read (LRU recency excluded, capacity never reached) and the model is the whole input of the oracle; keying by the dump alone would hide operations that silently do nothing.", "§3 C15"),
  "C16": (EXPL, "worlds with name collisions x every focus string x formats; filter oracle on the unfocused relation",
-         "Focused API relation must equal the filtered unfocused relation for every focus string (names, ns/names, absent names, ingress-controller) and the formatted outputs must parse to the same; with exposure the exposure sections must equal the filtered unfocused sections format by format.",
+         "Focused API relation must equal the filtered unfocused relation for every focus string (names, ns/names, absent names, ingress-controller) and the formatted outputs must parse to the same; with exposure the exposure sections must equal the filtered unfocused sections format by format. Scope focus/analyzer-reuse: one analyzer object used for two inputs in a row must answer the second like a fresh analyzer.",
          "Uses the C09 parsers.", "§3 C16"),
  "C17": (EXPL, "base worlds x every re-expression of each workload (kind x replicas x bare pods with owner); relation equality modulo [Kind]",
          "Every re-expression (x 4 document orders) is analysed and compared with the base relation and, without admin policies, with the base list --exposure report; one peer per workload; no self entry; name-collision worlds.",
